@@ -523,7 +523,96 @@ def s_case(draw):
     return {"kind": "S", "cfg": cfg, "choices": draw(st.lists(st.integers(0, 2), max_size=50))}
 
 
+# ------------------------------------------------------------------------------------------------
+# E: a daemon serving ONE connection the application handed to it (socket pair): the instance rules hold there too
+# ------------------------------------------------------------------------------------------------
+def run_e(case):
+    """steps: 'who' | 'bad' (a request the daemon refuses with an error reply) | 'cb' (a @callback member that raises: the daemon reports
+    it and re-raises it in its own loop) - all on the one connection this daemon serves; it stays in service throughout"""
+    import socket as _socket
+    import Pyro5.api as api
+    import Pyro5.server
+    from vlib import live
+    live.quiet_logs()
+    V = []
+
+    def viol(sig, what):
+        V.append(Violation("C09:existing-connection:" + sig, ("%s  case=%r" % (what, case))[:700]))
+    cid = next(SERIAL)
+    mode = case["mode"]
+    made = []
+
+    @api.behavior(instance_mode=mode)
+    @api.expose
+    class Inst(object):
+        def __init__(self):
+            made.append(len(made) + 1)
+            self.serial = made[-1]
+
+        def who(self):
+            return self.serial
+
+        @api.callback
+        def cb(self):
+            raise ValueError("a callback member fails")
+    s1, s2 = _socket.socketpair()
+    d = Pyro5.server.Daemon(connected_socket=s1)
+    d.register(Inst, "e%d" % cid)
+    t = threading.Thread(target=d.requestLoop, daemon=True)
+    t.start()
+    p = api.Proxy("e%d" % cid, connected_socket=s2)
+    p._pyroTimeout = 10.0
+    seen = []
+    try:
+        for n, op in enumerate(case["steps"]):
+            try:
+                if op == "who":
+                    seen.append(p.who())
+                elif op == "bad":
+                    p._pyroInvoke("no_such_member", (), {})
+                else:
+                    p.cb()
+            except (AttributeError, ValueError):
+                pass
+            except Exception as x:
+                viol("call-failed", "step %d %s failed with %r" % (n, op, x))
+                break
+        if not V and seen:
+            if mode == "percall":
+                if len(set(seen)) != len(seen):
+                    viol("instance-not-fresh:percall", "percall: serials %r" % (seen,))
+            elif len(set(seen)) != 1:
+                viol("wrong-instance:" + mode, "one connection, mode %s: calls were served by instances %r" % (mode, seen))
+    finally:
+        try:
+            p._pyroRelease()
+        except Exception:
+            pass
+        try:
+            s2.close()          # the peer goes away: the daemon's loop sees the end of the connection
+        except OSError:
+            pass
+        t.join(0.5)
+        try:
+            d.shutdown()
+        except Exception:
+            pass
+        try:
+            s1.close()
+        except OSError:
+            pass
+        t.join(2)
+    return V
+
+
+def e_case():
+    return st.fixed_dictionaries({"kind": st.just("E"), "mode": st.sampled_from(["session", "session", "single", "percall"]),
+                                  "steps": st.lists(st.sampled_from(["who", "who", "bad", "cb"]), min_size=2, max_size=8)})
+
+
 def run_case(case, servertype=None, keep=False):
+    if case["kind"] == "E":
+        return run_e(case)
     if case["kind"] == "S":
         sch, results, facts = run_s_trial(case["cfg"], preempt={int(k): v for k, v in case.get("preempt", {}).items()} or None,
                                           choices=case.get("choices"))
@@ -550,6 +639,7 @@ def SHARDS(tier):
     sh = [{"part": "H", "servertype": t} for t in ("thread", "multiplex")] * (3 if tier == "quick" else 6)
     sh += [{"part": "S-enum", "cat": i, "preemptions": 2} for i in range(len(s_catalogue()))]
     sh += [{"part": "S-random"} for _ in range(2 if tier == "quick" else 4)]
+    sh += [{"part": "E"}]
     return sh
 
 
@@ -563,6 +653,12 @@ def run(ctx):
                        name="instances" + st_, max_rounds=5)
         finally:
             _teardown()
+    elif part == "E":
+        for mode in ("session", "single", "percall"):
+            for steps in (["who", "cb", "who"], ["who", "bad", "who"], ["who", "who", "cb", "bad", "who", "cb", "who"]):
+                case = {"kind": "E", "mode": mode, "steps": steps}
+                ctx.observe(case, run_case(case), True, ["E", "mode:" + mode])
+        ctx.search(e_case(), run_case, ctx.n(40, 400), nontrivial=lambda c: "who" in c["steps"][1:], labels=lambda c: ["E", "mode:" + c["mode"]], name="existingconn", max_rounds=2)
     elif part == "S-enum":
         cfg = s_catalogue()[sh["cat"]]
 
